@@ -75,6 +75,7 @@ class Walk:
         self.optional = set()  # paths that may or may not be reported
         self.deny = set()      # directories whose listing fails (fault injection; the oracle runs as root)
         self.out_of_domain = False
+        self.unreadable_required = False   # a directory that cannot be listed is itself still an entry (visited once)
         self.xdev = False      # -xdev / -mount: a directory on another file system than the starting point is visited, not descended
 
     def _abs(self, p):
@@ -154,7 +155,8 @@ class Walk:
                 names = os.listdir(ap)
             except OSError as e:
                 self.errors.append(("unreadable", path, False))
-                self.optional.add(path)
+                if not self.unreadable_required:
+                    self.optional.add(path)
                 names = None
             if names is not None:
                 if self.sorted:
